@@ -168,6 +168,37 @@ def split_points(size: int, n: int, rng: random.Random):
     return out
 
 
+PIECE_TYPES = ["bytes", "bytearray", "mvB", "mvH", "mvI", "mvd"]
+_PIECE_CODE = {"mvH": "H", "mvI": "I", "mvd": "d"}
+
+
+def typed_pieces(data: bytes, parts, ptype: str):
+    """The pieces data[s:e] as buffer objects of the given type; the concatenation of bytes(memoryview(p).cast('B'))
+    over the result is always data[parts[0][0]:parts[-1][1]].  Multi-byte-item views need a length that is a multiple of
+    the item size: the unaligned head of a piece is sent as a byte view of its own, so the final piece keeps the type."""
+    out = []
+    for s, e in parts:
+        piece = data[s:e]
+        if ptype == "bytes" or not piece:
+            out.append(piece)
+        elif ptype == "bytearray":
+            out.append(bytearray(piece))
+        elif ptype == "mvB":
+            out.append(memoryview(piece))
+        else:
+            import array
+
+            arr = array.array(_PIECE_CODE[ptype])
+            r = len(piece) % arr.itemsize
+            if r:
+                out.append(memoryview(piece[:r]))
+            if len(piece) > r:
+                arr.frombytes(piece[r:])
+                out.append(memoryview(arr))
+    assert b"".join(bytes(memoryview(p).cast("B")) for p in out) == (data[parts[0][0]:parts[-1][1]] if parts else b"")
+    return out
+
+
 def form_fields(size: int, tag: str):
     """Fields of a form whose encoded size is about `size`."""
     fields = [["a", "1"], ["a", "2"], ["empty", ""], ["sp ace", "x y+z&=;%"], ["u", "é日"]]
@@ -515,14 +546,21 @@ class Exec:
         if bk == "stream":
             data = blob(size, "R")
             await resp.prepare(request)
-            for s, e in split_points(size, b.get("n", 3), rng):
-                await resp.write(data[s:e])
+            pieces = typed_pieces(data, split_points(size, b.get("n", 3), rng), b.get("ptype", "bytes"))
+            last = b""
+            if b.get("last_eof") and b.get("eof", True) and not b.get("extra") and pieces:
+                last = pieces.pop()  # the final piece travels through write_eof(chunk)
+            for piece in pieces:
+                await resp.write(piece)
             if b.get("extra"):
                 # more than the declared Content-Length: the writer is documented/pinned to cut at the declared length
                 # (tests/test_http_writer.py::test_write_payload_length)
                 await resp.write(b"EXTRA-BYTES"[: b["extra"]])
             if b.get("eof", True):
-                await resp.write_eof()
+                if b.get("last_eof"):
+                    await resp.write_eof(last)
+                else:
+                    await resp.write_eof()
         self.handler_done = True
         return resp
 
@@ -1416,6 +1454,14 @@ def gen_case(rng: random.Random, force=None):
         "seg": force.get("seg") or gen_seg(rng, small),
         "second": {"method": rng.choice(["POST", "POST", "GET", "PUT"]), "size": rng.choice([0, 1, 100, 2048, 5000])},
     }
+    # piece-type dimensions of streamed bodies (drawn last: the earlier draws of a seed are unchanged)
+    pt = rng.choice(PIECE_TYPES + ["bytes", "bytes"])
+    le = rng.random() < 0.4
+    if skind == "stream":
+        rs["body"]["ptype"] = force.get("resp_ptype") or pt
+        rs["body"]["last_eof"] = force["resp_last_eof"] if "resp_last_eof" in force else le
+        if "resp_last_eof" in force:
+            rs["body"]["eof"] = True
     return case
 
 
@@ -1506,6 +1552,26 @@ def shards(tier, seed):
         out.append({"kind": "random", "sub": i, "n": 260 if q else 2000})
     for i in range(2 if q else 8):
         out.append({"kind": "skipbody", "sub": 200 + i, "n": 150 if q else 1200})
+    for i in range(1 if q else 4):
+        out.append({"kind": "pieces", "sub": 300 + i, "parts": 1 if q else 4})
+    return out
+
+
+def piece_cases():
+    """Streamed response: piece type x final piece through write()/write_eof(chunk) x framing x compression x size."""
+    out = []
+    for ptype in PIECE_TYPES:
+        for last_eof in (False, True):
+            for opt in ("plain", "compress", "chunked", "chunked+compress", "length", "length+compress"):
+                for size in (1, 100, 2049, 65537):
+                    for version in ("1.1", "1.0"):
+                        if "chunked" in opt and version == "1.0":
+                            continue
+                        if version == "1.0" and size not in (100, 65537):
+                            continue
+                        out.append({"resp_kind": "stream", "resp_size": size, "status": 200, "method": "GET", "version": version, "resp_ptype": ptype, "resp_last_eof": last_eof,
+                                    "resp_compression": "deflate" if "compress" in opt else None, "resp_chunked": "chunked" in opt, "content_length": "length" in opt, "force_close": False,
+                                    "req_kind": "none", "req_size": 0, "req_chunked": None, "req_compress": None, "expect100": False, "conn_close": False, "client_force_close": False})
     return out
 
 
@@ -1569,6 +1635,13 @@ def run_shard(spec, rec):
                 "per-side sweep: body kind x size (0..65537) x framing option x version x {expect100 | status x HEAD}" + ("" if spec["stride"] == 1 else f" (1/{spec['stride']} sample per seed)"),
                 spec["stride"] == 1,
             )
+        elif spec["kind"] == "pieces":
+            rng = random.Random(spec["seed"] * 1000003 + spec["sub"] * 7919 + 5)
+            for k, force in enumerate(c for i, c in enumerate(piece_cases()) if i % spec["parts"] == (spec["sub"] - 300)):
+                case = gen_case(rng, force)
+                ex = one(case, rec)
+                if k % 53 == 0 and ex is not None:
+                    rec.sample(sample_of(case, ex))
         elif spec["kind"] == "skipbody":
             # the handler returns its response without reading the request body: the server drains the rest of the body
             # after the response (lingering) and both ends must still agree on keep-alive; bodies large enough to be
